@@ -248,6 +248,7 @@ fn model_of(v: &Value) -> Model {
     match v["kind"].as_str() {
         Some("assert_identity") => Model::AssertIdentity,
         Some("profiling_noop") => Model::ProfilingNoop,
+        Some("sqrt_as_pow") => Model::SqrtAsPow,
         Some("inject") => Model::Inject(v["name"].as_str().unwrap_or("INJ").to_string(), v["lua"].as_str().unwrap_or("nil").to_string()),
         _ => Model::None,
     }
